@@ -45,6 +45,15 @@ func cowNew(name string) *cowStack {
 	case "cow-ro":
 		b := afero.NewMemMapFs()
 		return &cowStack{afero.NewCopyOnWriteFs(afero.NewReadOnlyFs(b), l), b, l, func() {}}
+	case "cow-osl": // the overlay on the real file system (answers ENOTDIR below a regular file), the base in memory
+		dir, err := os.MkdirTemp("", "verif-cowl-")
+		if err != nil {
+			panic(err)
+		}
+		syscallUmask()
+		b := afero.NewMemMapFs()
+		ol := &rootedFs{afero.NewOsFs(), dir}
+		return &cowStack{afero.NewCopyOnWriteFs(b, ol), b, ol, func() { os.RemoveAll(dir) }}
 	}
 	panic("unknown stack " + name)
 }
@@ -204,7 +213,7 @@ func cowRunImpl(c corr.Case) []string {
 			switch t[0] {
 			case "snapshot":
 				bm, ok1 := st.base.(*afero.MemMapFs)
-				if !ok1 {
+				if _, ok2 := st.layer.(*afero.MemMapFs); !ok1 || !ok2 {
 					return "snap"
 				}
 				return "snap B{" + SnapLine(SnapshotMem(bm)) + "} L{" + SnapLine(SnapshotMem(st.layer)) + "}"
@@ -459,6 +468,21 @@ func cowExhaustive(tier string) []corr.Case {
 					cases = append(cases, corr.Case{Lines: l})
 				}
 			}
+		}
+	}
+	// type clashes on a path prefix: a directory in the overlay over a base file, a file in the overlay
+	// over a base directory; operations on names below them (a layer that keeps real directories
+	// answers ENOTDIR there, which means "not in this layer")
+	for _, st := range append(append([]string{}, stacks...), "cow-osl") {
+		setup := []string{"case " + st, "b.create " + h("/c"), "h.write 0 62", "h.close 0", "b.mkdirall " + h("/k") + " 493", "b.create " + h("/k/f"), "h.write 1 6b66", "h.close 1",
+			"l.mkdirall " + h("/c") + " 493", "l.create " + h("/c/in"), "h.write 2 696e", "h.close 2", "l.create " + h("/k"), "h.write 3 6c6b", "h.close 3", "b.age"}
+		for _, ops := range [][]string{
+			{"stat " + h("/c/new"), "create " + h("/c/new"), "h.write 4 6e", "h.close 4", "stat " + h("/c/new"), "open " + h("/c"), "h.readdirnames 5 -1"},
+			{"openfile " + h("/c/new") + " 66 420", "h.write 4 6e", "h.close 4", "stat " + h("/c/in"), "mkdir " + h("/c/sub") + " 493", "stat " + h("/c")},
+			{"stat " + h("/k/f"), "open " + h("/k/f"), "h.read 4 8", "stat " + h("/k"), "stat " + h("/k/absent"), "openfile " + h("/k/f") + " 2 420"},
+			{"remove " + h("/c/in"), "stat " + h("/c/in"), "chmod " + h("/c/in") + " 384", "rename " + h("/c/in") + " " + h("/c/moved"), "stat " + h("/c/absent")},
+		} {
+			cases = append(cases, corr.Case{Lines: append(append(append([]string{}, setup...), ops...), "snapshot")})
 		}
 	}
 	// a wide directory (more entries than any small-slice special case of a sort or a map): every
